@@ -70,6 +70,21 @@ func c14Plan(seed int64, tier string) []core.Case {
 		c.Race = i%4 == 0
 		cs = append(cs, c)
 	}
+	// stress: long concurrent runs without a linearizability check (too long
+	// for the checker); decided by the race detector and by the per-operation
+	// assertions (Get/Peek never name a block of another base).
+	nstress := 9
+	if tier == "thorough" {
+		nstress = 120
+	}
+	for i := 0; i < nstress; i++ {
+		s := core.SubSeed(seed, "c14s", i)
+		rng := core.Case{Seed: s}.Rng()
+		cs = append(cs, core.Case{Kind: "concurrent", Seed: s, Race: true, P: map[string]int64{
+			"kind": int64(i % 3), "cap": int64(1 + rng.Intn(3)), "stats": int64(rng.Intn(2)),
+			"g": 4, "ops": 1500, "procs": []int64{0, 4, 16}[rng.Intn(3)], "stress": 1,
+		}})
+	}
 	return cs
 }
 
@@ -836,13 +851,60 @@ func c14Model(kind int, init *cmodel) porcupine.Model {
 	return nm.ToModel()
 }
 
+// slowBlock wraps a real block so that the accessors the caches call (inside
+// their critical sections, or - if a change moved them - outside) sometimes
+// yield, spin or sleep: goroutines then queue up at the cache's lock and run
+// the moment it is released, which is when a window between two critical
+// sections is open. The unexported methods of bgzf.Block are promoted from the
+// embedded interface value.
+type slowBlock struct {
+	bgzf.Block
+	d *pauser
+}
+
+type pauser struct {
+	n      uint64
+	level  int
+	pauses int64
+}
+
+func (p *pauser) pause() {
+	if p == nil || p.level == 0 {
+		return
+	}
+	x := atomic.AddUint64(&p.n, 0x9e3779b97f4a7c15)
+	x ^= x >> 29
+	switch (x * 0xbf58476d1ce4e5b9) >> 60 {
+	case 0, 1:
+		runtime.Gosched()
+		atomic.AddInt64(&p.pauses, 1)
+	case 2:
+		for s := 0; s < 400; s++ {
+			atomic.AddUint64(&p.n, 0)
+		}
+		atomic.AddInt64(&p.pauses, 1)
+	case 3:
+		if p.level >= 2 {
+			time.Sleep(20 * time.Microsecond)
+			atomic.AddInt64(&p.pauses, 1)
+		}
+	}
+}
+
+func (s *slowBlock) Base() int64     { s.d.pause(); return s.Block.Base() }
+func (s *slowBlock) Used() bool      { s.d.pause(); return s.Block.Used() }
+func (s *slowBlock) NextBase() int64 { s.d.pause(); return s.Block.NextBase() }
+
 func c14Concurrent(r *core.Result, c core.Case) {
 	kind, capn, stats := c.Int("kind"), c.Int("cap"), c.Int("stats") == 1
 	G, nops := c.Int("g"), c.Int("ops")
 	cfg := fmt.Sprintf("%s(%d) stats=%v goroutines=%d ops=%d procs=%d", cacheKinds[kind], capn, stats, G, nops, c.Int("procs"))
 	cc, _ := c14New(kind, capn, stats)
-	var ctr int64
+	ps := &pauser{level: int(c.Seed>>3) % 3}
+	var ctr, spin int64
 	var idc int64
+	var recycled, wrongPeek, ready int64
+	var wrongPeekAt atomic.Value
 	var mu sync.Mutex
 	ids := map[bgzf.Block]int{}
 	var ops []porcupine.Operation
@@ -866,9 +928,22 @@ func c14Concurrent(r *core.Result, c core.Case) {
 				defer wg.Done()
 				rng := rand.New(rand.NewSource(core.SubSeed(c.Seed, "g", g)))
 				<-start
+				// start together: wake-up latency is longer than a short history
+				atomic.AddInt64(&ready, 1)
+				for atomic.LoadInt64(&ready) < int64(G) {
+					runtime.Gosched()
+				}
 				var loans []bgzf.Block
 				var loanIn []cin
 				var local []porcupine.Operation
+				// free: blocks Put handed back (evicted, or refused); they are
+				// this goroutine's now and are overwritten with another
+				// member before being offered again, as the reader does
+				type fresh struct {
+					b  bgzf.Block
+					in cin
+				}
+				var free []fresh
 				for k := 0; k < nops; k++ {
 					var in cin
 					var out cout
@@ -884,16 +959,36 @@ func c14Concurrent(r *core.Result, c core.Case) {
 							id := int(atomic.AddInt64(&idc, 1))
 							base := int64(rng.Intn(4))
 							used := rng.Intn(3) != 0
-							b = bgzf.VerifNewBlock(base, nextFor(base, id), used, []byte{byte(id)})
-							mu.Lock()
-							ids[b] = id
-							mu.Unlock()
-							in = cin{Op: "put", ID: id, Base: base, Used: used}
+							if len(free) > 0 && rng.Intn(3) != 0 {
+								b, in = free[len(free)-1].b, free[len(free)-1].in
+								free = free[:len(free)-1]
+							} else {
+								b = &slowBlock{Block: bgzf.VerifNewBlock(base, nextFor(base, id), used, []byte{byte(id)}), d: ps}
+								mu.Lock()
+								ids[b] = id
+								mu.Unlock()
+								in = cin{Op: "put", ID: id, Base: base, Used: used}
+							}
 						}
 						call = atomic.AddInt64(&ctr, 1)
 						ev, ret2 := cc.Put(b)
 						ret = atomic.AddInt64(&ctr, 1)
 						out = cout{ID: idOf(ev), Retained: ret2}
+						// (not with FIFO: its Get leaves a used block in the cache,
+						// so a block handed back here may still be on loan to
+						// another goroutine, which will Put it back as it was)
+						if ev != nil && (ev != b || !ret2) && cacheKinds[kind] != "FIFO" {
+							// overwritten at once, as the reader's decompressor does
+							id := int(atomic.AddInt64(&idc, 1))
+							base := int64(rng.Intn(4))
+							used := rng.Intn(3) != 0
+							bgzf.VerifRebase(ev.(*slowBlock).Block, base, nextFor(base, id), used, []byte{byte(id)})
+							atomic.AddInt64(&recycled, 1)
+							mu.Lock()
+							ids[ev] = id
+							mu.Unlock()
+							free = append(free, fresh{ev, cin{Op: "put", ID: id, Base: base, Used: used}})
+						}
 					case x < 65:
 						in = cin{Op: "get", Base: int64(rng.Intn(4))}
 						call = atomic.AddInt64(&ctr, 1)
@@ -913,6 +1008,10 @@ func c14Concurrent(r *core.Result, c core.Case) {
 						ex, next := cc.Peek(in.Base)
 						ret = atomic.AddInt64(&ctr, 1)
 						out = cout{Exists: ex, Next: next}
+						if ex && (next <= in.Base || next > in.Base+60000) {
+							atomic.AddInt64(&wrongPeek, 1)
+							wrongPeekAt.Store(fmt.Sprintf("Peek(%d) = (true, %d): that is the next-offset of a member with base %d..", in.Base, next, next-60000))
+						}
 					case x < 90:
 						in = cin{Op: "len"}
 						call = atomic.AddInt64(&ctr, 1)
@@ -931,8 +1030,14 @@ func c14Concurrent(r *core.Result, c core.Case) {
 						ret = atomic.AddInt64(&ctr, 1)
 					}
 					local = append(local, porcupine.Operation{ClientId: g, Input: in, Call: call, Output: out, Return: ret})
-					if rng.Intn(16) == 0 {
+					switch rng.Intn(16) {
+					case 0:
 						runtime.Gosched()
+					case 1, 2:
+						// drift apart by a few hundred nanoseconds
+						for s := rng.Intn(300); s > 0; s-- {
+							atomic.AddInt64(&spin, 1)
+						}
 					}
 				}
 				mu.Lock()
@@ -952,6 +1057,31 @@ func c14Concurrent(r *core.Result, c core.Case) {
 		}
 	}
 	r.Count("concurrent_ops", int64(len(ops)))
+	r.Count("concurrent_blocks_recycled", recycled)
+	r.Count("pauses_inside_cache_calls", ps.pauses)
+	cfg += fmt.Sprintf(" pause-level=%d", ps.level)
+	if wrongPeek > 0 {
+		r.Violate(cacheKinds[kind]+"|peek-wrong-block|concurrent", "%s: %d Peek calls named a member that cannot have the requested base, e.g. %v", cfg, wrongPeek, wrongPeekAt.Load())
+	}
+	if c.Int("stress") == 1 {
+		wrongGet := 0
+		for _, o := range ops {
+			if o.Input.(cin).Op == "get" && o.Output.(cout).ID == -2 {
+				wrongGet++
+			}
+		}
+		if wrongGet > 0 {
+			r.Violate(cacheKinds[kind]+"|get-wrong-block|concurrent", "%s: %d Get calls returned a block of another base or an unknown block", cfg, wrongGet)
+		}
+		if l, cp := cc.Len(), cc.Cap(); l > cp {
+			r.Violate(cacheKinds[kind]+"|len-exceeds-cap|concurrent", "%s: after the run Len() = %d > Cap() = %d", cfg, l, cp)
+		}
+		r.Count("stress_runs", 1)
+		r.Count("stress_ops", int64(len(ops)))
+		r.Nontrivial = overlaps >= 2
+		r.Sample = map[string]any{"config": cfg, "operations": len(ops), "overlapping_pairs": overlaps, "stress": true}
+		return
+	}
 	r.Count("overlapping_op_pairs", int64(overlaps))
 	r.Nontrivial = overlaps >= 2
 	model := c14Model(kind, &cmodel{kind: kind, cap: capn})
